@@ -5,6 +5,7 @@ import copy
 
 import common as C
 import fault_probes as FP
+import re_probes as RP
 import engine_common as E
 import engine_extract
 from engine_common import M, seq
@@ -389,6 +390,7 @@ def run(ctx, model=True):
         extra = extra[:: 4]
     res = E.run_property(ctx, "C01", oracle, gen=make_gen(), quick=110, thorough=2400, model=model, extra_scenarios=extra)
     FP.run_probes(ctx, res, PROBE_JUDGES, ["close"], 40, 800)
+    RP.add_to(res, ["external-assets"])
     return res
 
 
@@ -397,6 +399,9 @@ def run_impl_only(ctx):
 
 
 def replay(ctx, data):
+    r = RP.replay(data)
+    if r is not None:
+        return r
     if FP.is_probe(data):
         return FP.replay_probe(ctx, data, PROBE_JUDGES)
     return E.replay_property(ctx, data, oracle)
